@@ -132,3 +132,11 @@ def _(u):
         return AND(state_ok(u, td, B, H), u.forall((B,), lambda b: AND(a.at(b) >= 0, a.at(b) <= N)))
 
     rowlocal(u, "step", mk_in, lambda u, td: u.run(F, "PDPEnv._step", td), requires=req)
+
+
+@unit("pdp.reward.padding", file=F, func="PDPEnv._get_reward", props=("C04", "C03"))
+def _(u):
+    from .envlib import reward_pad_invariant
+
+    H = u.dim("H")
+    reward_pad_invariant(u, F, "PDPEnv._get_reward", "PDPEnv", lambda u, B: u.td(B, locs=((B, 2 * H + 1, 2), "f")), 2 * H + 1, static=True)
